@@ -532,6 +532,35 @@ func (x *Exec) step(fr *Frame, st *State, in ssa.Instruction) {
 		} else {
 			fr.regs[n] = v
 		}
+	case *ssa.Select:
+		fr.regs[n] = x.selectOp(fr, st, n)
+	case *ssa.Range:
+		mt, ok := n.X.Type().Underlying().(*types.Map)
+		if !ok {
+			x.fail("range over %s not supported", n.X.Type())
+		}
+		ks, _ := scalarSort(mt.Key())
+		m := x.val(fr, st, n.X).(*Term)
+		key := fmt.Sprintf("iter|%p", n)
+		st.ghostV[key] = ConstArray(ArrayS(ks, BoolS), False)
+		fr.regs[n] = MapIterV{Key: key, Addr: m, MT: mt}
+	case *ssa.Next:
+		it, ok := x.val(fr, st, n.Iter).(MapIterV)
+		if !ok {
+			x.fail("next on a non-map iterator")
+		}
+		x.trusted("range over a Go map: every key is visited exactly once, in arbitrary order")
+		ks, _ := scalarSort(it.MT.Key())
+		V := st.ghostV[it.Key].(*Term)
+		dom := Select(st.arr(mapArrBase(it.MT)+"|dom", ArrayS(IntS, ArrayS(ks, BoolS))), it.Addr)
+		more := Const(freshName("more"), BoolS)
+		k := Const(freshName("rkey"), ks)
+		st.assume(Implies(more, And(Select(dom, k), Not(Select(V, k)))))
+		q := Var(freshName("q"), ks)
+		st.assume(Implies(Not(more), Forall([]*Term{q}, Implies(Select(dom, q), Select(V, q)))))
+		st.ghostV[it.Key] = Ite(more, Store(V, k, True), V)
+		v, _ := x.mapGet(st, it.MT, it.Addr, k)
+		fr.regs[n] = TupleV{more, k, v}
 	case *ssa.Phi:
 		// only short-circuit boolean expressions produce phis in naive form
 		idx := -1
@@ -581,6 +610,43 @@ func (x *Exec) initOpaque(st *State, t types.Type, addr *Term) {
 			x.initOpaque(st, ft, a)
 		}
 	}
+}
+
+// selectOp: only receives on context Done() channels are modelled (ready iff the context is cancelled).
+func (x *Exec) selectOp(fr *Frame, st *State, n *ssa.Select) Value {
+	var ready []*Term
+	for _, s := range n.States {
+		ch, ok := x.val(fr, st, s.Chan).(*Term)
+		if s.Dir != types.RecvOnly || !ok || ch.Op != "app" || ch.Name != "donechan" {
+			x.fail("select on a channel that is not a context Done() channel")
+		}
+		ready = append(ready, Select(cancelledArr(st), ch.Args[0]))
+	}
+	idx := Const(freshName("selidx"), IntS)
+	var cs []*Term
+	lo := int64(0)
+	if !n.Blocking {
+		lo = -1
+		cs = append(cs, Implies(Eq(idx, IntLit(-1)), Not(Or(ready...))))
+	} else {
+		x.note("blocking select: assumed to return only when a case is ready (liveness not verified)", fr.fn.Name())
+		cs = append(cs, Or(ready...))
+	}
+	cs = append(cs, Le(IntLit(lo), idx), Lt(idx, IntLit(int64(len(ready)))))
+	for i, r := range ready {
+		cs = append(cs, Implies(Eq(idx, IntLit(int64(i))), r))
+	}
+	if !n.Blocking {
+		cs = append(cs, Implies(Or(ready...), Neq(idx, IntLit(-1))))
+	}
+	st.assume(And(cs...))
+	out := TupleV{idx, False}
+	for _, s := range n.States {
+		if s.Dir == types.RecvOnly {
+			out = append(out, zeroValue(s.Chan.Type().Underlying().(*types.Chan).Elem()))
+		}
+	}
+	return out
 }
 
 func (x *Exec) zeroElems(st *State, elem types.Type, id *Term) {
